@@ -117,10 +117,12 @@ def run_extract(col):
     lam = symarray("lam", (3,), positive=True)
     phi = symarray("phi", (len(dof1), 3))
     FV = it.get("felupe.mechanics._free_vibration:FreeVibration")
-    job = it.call(FV, [items], {})
-    it.setattr(job, "eigenvalues", lam)
-    it.setattr(job, "eigenvectors", phi)
-    it.setattr(job, "dof1", dof1)
+    # the job is brought to its evaluated state by its own evaluate() (a stub eigen-solver hands back symbolic pairs); the boundaries
+    # carry non-zero prescribed values (a dictionary re-used after a static step): dof.apply, if consulted at all, returns them
+    ext = symarray("ext", (len(dof0),))
+    it.call_hooks[("felupe.dof._tools", "apply")] = lambda interp, fn, args, kwargs: ext.copy()
+    job = it.call(FV, [items], dict(boundaries={}))
+    it.call_method(job, "evaluate", [], dict(solver=lambda A=None, M=None, sigma=None, **kw: (lam.copy(), phi.copy()), k=3))
     before = scenario.flat_values(it, fc)
     for mode in (0, 2):
         field, freq = it.call_method(job, "extract", [], dict(n=mode, inplace=False))
